@@ -2815,7 +2815,12 @@ where
                 if packet.return_code() == ConnectReturnCode::Accepted {
                     self.status = ConnectionStatus::Connected;
                     if packet.session_present() {
-                        events.extend(self.send_stored());
+                        let resent = self.send_stored();
+                        if !resent.is_empty() {
+                            events.extend(resent);
+                            // packets were handed to the transport: restart the PINGREQ interval
+                            self.send_post_process(&mut events);
+                        }
                     } else {
                         self.clear_store_related();
                     }
@@ -2901,7 +2906,12 @@ where
                     }
 
                     if packet.session_present() {
-                        events.extend(self.send_stored());
+                        let resent = self.send_stored();
+                        if !resent.is_empty() {
+                            events.extend(resent);
+                            // packets were handed to the transport: restart the PINGREQ interval
+                            self.send_post_process(&mut events);
+                        }
                     } else {
                         self.clear_store_related();
                     }
